@@ -54,6 +54,9 @@ QReason(e) ==
                     FuzzyReason(MutWords(SubSeq(ws, 1, e.merged[k].k)) \cup MutWords(SubSeq(ws, e.merged[k].k + 1, Len(ws))),
                                 q, e.bound, e.cap, e.merged[k].fz) # "ok"
                THEN "merged-fuzzy"
+          \* a union holds each word once: a word that two parts know is one result
+          ELSE IF \E k \in DOMAIN e.merged : \E i, j \in DOMAIN e.merged[k].fz : i < j /\ e.merged[k].fz[i].w = e.merged[k].fz[j].w
+               THEN "merged-fuzzy-lists-a-word-twice"
           ELSE "ok"
 
 QDrift(e) ==
